@@ -1476,6 +1476,164 @@ theorem init_inv (cfg : Cfg) (kind : Acc.Kind) (balance fee leverage : Rat) (m0 
   refine ⟨[], ?_, Or.inl rfl⟩
   simp [longOf, visible, AggLemmas.windows_nil]
 
+/-! ### the whole run of the normal simulator, any number of symbols -/
+
+theorem EInv.of_osame {e e' : Engine M} {sym s : Nat} {t0 : Int} {rows : List Candle} (h : StoreFrame.OSame sym e e')
+    (hs : s ≠ sym) (hi : EInv e s t0 rows) : EInv e' s t0 rows := by
+  obtain ⟨h1, h2, h3⟩ := h
+  exact ⟨by rw [h1]; exact hi.hs, by rw [h3 s hs]; exact hi.short, hi.spaced, by rw [h3 s hs, h2]; exact hi.inv⟩
+
+theorem symStep_of_err (fuel i : Nat) (acc : Engine M × List (List Candle)) (sym : Nat) (h : acc.1.err.isSome) :
+    symStep u fuel i acc sym = acc := by
+  unfold symStep; rw [if_pos h]
+
+/-- the state of all symbols in the middle of an iteration: the first `k` symbols hold `i + 1` rows, the others `i` -/
+structure MidInv (e : Engine M) (inputs : List (List Candle)) (t0 : Int) (nsym i k : Nat) (len : Nat → Nat) : Prop where
+  done : ∀ s, s < k → s < nsym → EInv e s t0 ((inputs.getD s []).take (i + 1))
+  todo : ∀ s, k ≤ s → s < nsym → EInv e s t0 ((inputs.getD s []).take i)
+  spaced : ∀ s, s < nsym → ∀ j (h : j < (inputs.getD s []).length), (inputs.getD s [])[j].ts = t0 + 60000 * (j : Int)
+  lens : ∀ s, s < nsym → (inputs.getD s []).length = len s
+
+/-- the per-symbol loop of one iteration, for the first `k` symbols -/
+theorem symFold_inv (fuel i : Nat) (e : Engine M) (inputs : List (List Candle)) (t0 : Int) (len : Nat → Nat)
+    (hal : ∀ s, s < e.cfg.nsym → AlignedCfg e.cfg s t0) (hil : ∀ s, s < e.cfg.nsym → i < len s)
+    (h0 : MidInv e inputs t0 e.cfg.nsym i 0 len) :
+    ∀ k, k ≤ e.cfg.nsym →
+      ((List.range k).foldl (symStep u fuel i) (e, inputs)).1.err.isSome ∨
+      (((List.range k).foldl (symStep u fuel i) (e, inputs)).1.cfg = e.cfg ∧
+       MidInv ((List.range k).foldl (symStep u fuel i) (e, inputs)).1 ((List.range k).foldl (symStep u fuel i) (e, inputs)).2
+         t0 e.cfg.nsym i k len) := by
+  intro k
+  induction k with
+  | zero => intro _; right; exact ⟨rfl, h0⟩
+  | succ k ih =>
+    intro hk
+    rw [List.range_succ, List.foldl_append]
+    simp only [List.foldl_cons, List.foldl_nil]
+    rcases ih (by omega) with herr | ⟨hcfg, hm⟩
+    · left
+      rw [symStep_of_err u fuel i _ k herr]; exact herr
+    · revert hcfg hm
+      generalize (List.range k).foldl (symStep u fuel i) (e, inputs) = acc
+      intro hcfg hm
+      obtain ⟨e1, ins1⟩ := acc
+      dsimp only at hcfg hm ⊢
+      have hkn : k < e.cfg.nsym := by omega
+      have hlenk : i < (ins1.getD k []).length := by rw [hm.lens k hkn]; exact hil k hkn
+      have hstep := symStep_inv u fuel i e1 ins1 k t0 (by rw [hcfg]; exact hal k hkn) (hm.spaced k hkn) hlenk
+        (hm.todo k (le_refl k) hkn)
+      have hos := StoreFrame.symStep_os u fuel i (e1, ins1) k
+      rcases hstep with herr | ⟨g1, g2, g3, g4⟩
+      · left; exact herr
+      · right
+        refine ⟨by rw [g2, hcfg], ⟨?_, ?_, ?_, ?_⟩⟩
+        · intro s hs hsn
+          by_cases hsk : s = k
+          · subst hsk; exact g1
+          · have hin := (StoreFrame.symStep_inputs u fuel i (e1, ins1) k s hsk).1
+            rw [hin]
+            exact EInv.of_osame hos hsk (hm.done s (by omega) hsn)
+        · intro s hs hsn
+          have hsk : s ≠ k := by omega
+          have hin := (StoreFrame.symStep_inputs u fuel i (e1, ins1) k s hsk).1
+          rw [hin]
+          exact EInv.of_osame hos hsk (hm.todo s (by omega) hsn)
+        · intro s hsn
+          by_cases hsk : s = k
+          · subst hsk; exact g4
+          · have hin := (StoreFrame.symStep_inputs u fuel i (e1, ins1) k s hsk).1
+            rw [hin]; exact hm.spaced s hsn
+        · intro s hsn
+          by_cases hsk : s = k
+          · subst hsk; rw [g3]; exact hm.lens s hsn
+          · have hin := (StoreFrame.symStep_inputs u fuel i (e1, ins1) k s hsk).1
+            rw [hin]; exact hm.lens s hsn
+
+/-- the state of all symbols between iterations -/
+structure AllInv (e : Engine M) (inputs : List (List Candle)) (t0 : Int) (nsym n : Nat) (len : Nat → Nat) : Prop where
+  inv : ∀ s, s < nsym → EInv e s t0 ((inputs.getD s []).take n)
+  spaced : ∀ s, s < nsym → ∀ j (h : j < (inputs.getD s []).length), (inputs.getD s [])[j].ts = t0 + 60000 * (j : Int)
+  lens : ∀ s, s < nsym → (inputs.getD s []).length = len s
+
+/-- ONE ITERATION OF THE NORMAL SIMULATOR, any number of symbols and timeframes, every strategy -/
+theorem stepAt_all (fuel i : Nat) (e : Engine M) (inputs : List (List Candle)) (t0 : Int) (len : Nat → Nat)
+    (hal : ∀ s, s < e.cfg.nsym → AlignedCfg e.cfg s t0) (hil : ∀ s, s < e.cfg.nsym → i < len s)
+    (hi : AllInv e inputs t0 e.cfg.nsym i len) :
+    (stepAt u fuel inputs e i).1.err.isSome ∨
+    ((stepAt u fuel inputs e i).1.cfg = e.cfg ∧
+     AllInv (stepAt u fuel inputs e i).1 (stepAt u fuel inputs e i).2 t0 e.cfg.nsym (i + 1) len) := by
+  unfold stepAt
+  dsimp only
+  split
+  · left; assumption
+  · have hs0 : StoreFrame.SSame e { e with time := ((((inputs.getD 0 [])[i]?).map (·.ts)).getD 0) + 60000 } := ⟨rfl, rfl⟩
+    have h0 : MidInv { e with time := ((((inputs.getD 0 [])[i]?).map (·.ts)).getD 0) + 60000 } inputs t0 e.cfg.nsym i 0 len :=
+      ⟨fun s hs _ => absurd hs (by omega), fun s _ hsn => EInv.of_same hs0 (hi.inv s hsn), hi.spaced, hi.lens⟩
+    have h := symFold_inv u fuel i { e with time := ((((inputs.getD 0 [])[i]?).map (·.ts)).getD 0) + 60000 } inputs t0 len
+      hal hil h0 e.cfg.nsym (le_refl _)
+    rcases h with herr | ⟨hcfg, hm⟩
+    · left; exact routesStep_err u fuel _ i (i + 1) herr
+    · right
+      have hs := StoreFrame.routesStep_ss u fuel
+        ((List.range e.cfg.nsym).foldl (symStep u fuel i) ({ e with time := ((((inputs.getD 0 [])[i]?).map (·.ts)).getD 0) + 60000 }, inputs)).1 i (i + 1)
+      exact ⟨by rw [hs.2]; exact hcfg, ⟨fun s hsn => EInv.of_same hs (hm.done s hsn hsn), hm.spaced, hm.lens⟩⟩
+
+/-- THE RUN OF THE NORMAL SIMULATOR — any number of symbols, any set of timeframes per symbol, EVERY strategy: if the
+    session starts on a boundary of every timeframe, every symbol's input minutes are evenly spaced and the stores start
+    empty, then after each of the first `n` iterations every symbol's store holds exactly its first `n` normalised input
+    rows and satisfies `StoreInv` for each of its timeframes — or the run has been stopped by an error. -/
+theorem runStepN_all (fuel : Nat) (inputs : List (List Candle)) (e : Engine M) (t0 : Int) (len : Nat → Nat)
+    (hal : ∀ s, s < e.cfg.nsym → AlignedCfg e.cfg s t0)
+    (hi : AllInv e inputs t0 e.cfg.nsym 0 len) :
+    ∀ n, (∀ s, s < e.cfg.nsym → n ≤ len s) →
+      (runStepN u fuel inputs e n).1.err.isSome ∨
+      ((runStepN u fuel inputs e n).1.cfg = e.cfg ∧
+       AllInv (runStepN u fuel inputs e n).1 (runStepN u fuel inputs e n).2 t0 e.cfg.nsym n len) := by
+  intro n
+  induction n with
+  | zero =>
+    intro _
+    right
+    unfold runStepN
+    simp only [List.range_zero, List.foldl_nil]
+    have hs : StoreFrame.SSame e (saveDaily { e with time := (((inputs.getD 0 [])[0]?).map (·.ts)).getD 0 }) :=
+      StoreFrame.SSame.trans (⟨rfl, rfl⟩ : StoreFrame.SSame e { e with time := (((inputs.getD 0 [])[0]?).map (·.ts)).getD 0 })
+        (StoreFrame.saveDaily_ss _)
+    exact ⟨hs.2, ⟨fun s hsn => EInv.of_same hs (hi.inv s hsn), hi.spaced, hi.lens⟩⟩
+  | succ k ih =>
+    intro hk
+    have hstep : runStepN u fuel inputs e (k + 1) =
+        stepAt u fuel (runStepN u fuel inputs e k).2 (runStepN u fuel inputs e k).1 k := by
+      unfold runStepN
+      rw [List.range_succ, List.foldl_append]
+      rfl
+    rw [hstep]
+    rcases ih (fun s hs => by have := hk s hs; omega) with herr | ⟨h2, h1⟩
+    · left
+      unfold stepAt
+      rw [if_pos herr]; exact herr
+    · have := stepAt_all u fuel k (runStepN u fuel inputs e k).1 (runStepN u fuel inputs e k).2 t0 len
+        (by rw [h2]; exact hal) (by rw [h2]; intro s hs; have := hk s hs; omega) (by rw [h2]; exact h1)
+      rcases this with herr | ⟨g2, g1⟩
+      · left; exact herr
+      · right; exact ⟨by rw [g2, h2], by rw [h2] at g1; exact g1⟩
+
+/-- the premise of `runStepN_all` is met by every fresh engine whose input arrays are evenly spaced -/
+theorem init_all (cfg : Cfg) (kind : Acc.Kind) (balance fee leverage : Rat) (m0 : M) (t0 : Int) (inputs : List (List Candle))
+    (hsp : ∀ s, s < cfg.nsym → ∀ j (h : j < (inputs.getD s []).length), (inputs.getD s [])[j].ts = t0 + 60000 * (j : Int)) :
+    AllInv (initEngine cfg kind balance fee leverage m0) inputs t0 cfg.nsym 0 (fun s => (inputs.getD s []).length) := by
+  refine ⟨?_, hsp, fun _ _ => rfl⟩
+  intro s hs
+  have hst : storeOf (initEngine cfg kind balance fee leverage m0) s = {} := by
+    unfold storeOf initEngine
+    simp [List.getD_eq_getElem?_getD, List.getElem?_replicate, hs]
+  rw [List.take_zero]
+  refine ⟨by unfold initEngine; simpa using hs, by rw [hst], fun j h => absurd h (by simp), ?_⟩
+  intro m _
+  rw [hst]
+  refine ⟨[], ?_, Or.inl rfl⟩
+  simp [longOf, visible, AggLemmas.windows_nil]
+
 end run
 
 end C07
